@@ -555,3 +555,24 @@ static void M__ZNSt9basic_iosIcSt11char_traitsIcEED1Ev(void *self) { (void)self;
 #ifdef USES__ZNSt9basic_iosIcSt11char_traitsIcEED0Ev
 static void M__ZNSt9basic_iosIcSt11char_traitsIcEED0Ev(void *self) { (void)self; }
 #endif
+
+/* ---------------------------------------------------------------- BitSerializer exception constructor (message text not built)
+ * SerializationException(code, const char*) builds `ToString(code) + ": " + message` - string work on heap objects that
+ * is irrelevant to every property checked (messages are never observed) and very expensive symbolically.  The model
+ * performs the observable part: vptr, error code, message pointer kept for what(). */
+#ifdef USES__ZN13BitSerializer22SerializationExceptionC2ENS_22SerializationErrorCodeEPKc
+static void M__ZN13BitSerializer22SerializationExceptionC2ENS_22SerializationErrorCodeEPKc(void *self, u32 code, void *msg) {
+  verif_stdexc_init(self, msg);
+  *(void **)self = (void *)&g__ZTVN13BitSerializer22SerializationExceptionE.f0[2];
+  *(u32 *)((u8 *)self + 16) = code;
+}
+#endif
+
+/* ---------------------------------------------------------------- optional models (MO_*: used only when a harness asks with //@ OVERRIDE)
+ * Number -> text used ONLY inside diagnostic messages of the MsgPack/CSV readers ("Invalid size of timestamp: <n>").  The digit
+ * loops (division by 100 / 10000 of a symbolic value) dominate the formula although no property observes the text. */
+#ifdef USES__ZN13BitSerializer7Convert6Detail2ToImcSaIcELi0EEEvRKT_RNSt7__cxx1112basic_stringIT0_St11char_traitsIS9_ET1_EE
+static void MO__ZN13BitSerializer7Convert6Detail2ToImcSaIcELi0EEEvRKT_RNSt7__cxx1112basic_stringIT0_St11char_traitsIS9_ET1_EE(void *in, void *out) {
+  (void)in; u8 q = '?'; verif_str_append(VSTR(out), &q, 1, 1);
+}
+#endif
